@@ -89,6 +89,17 @@ class UserAddEdge(ActionGroup):
             self.actions.append(
                 UpdateTrackIDs(self.tracks, successor, self.tracks.get_next_track_id())
             )
+            # the subtree attached at the target joins the lineage of the source
+            new_lineage_id = self.tracks.get_lineage_id(source)
+            if new_lineage_id is not None:
+                self.actions.append(
+                    UpdateTrackIDs(
+                        self.tracks,
+                        target,
+                        self.tracks.get_track_id(target),
+                        new_lineage_id,
+                    )
+                )
         else:
             raise InvalidActionError(
                 f"Expected degree of 0 or 1 before adding edge, got {out_degree_source}"
